@@ -128,6 +128,7 @@ def make_reg():
     install_trace_funcs(reg)
     register_classes(reg, [W + "errors.py", W + "_wordlist.py", W + "_input.py"])
     reg.regex_abstract = True
+    reg.max_inline_depth = 40      # the cluster is inlined through every machine; chains such as message -> key -> send -> mailbox are deep
     reg.drop_calls += ["self._evolve_wormhole_status", "self._evolve_status", "self._start_timing.finish",
                        "self._timing.add", "self._debug"]
     em, fm = reg.ext_models, reg.func_models
